@@ -243,6 +243,16 @@ def coherence_problems(model, tol=1e-7):
                         s, float(np.max(np.abs(v - want))), total))
         if not np.all(np.isfinite(joint)) or abs(joint.sum() - total) > 1e-8 * total or joint.min() < -1e-12 * total:
             bad.append("datavector not a valid distribution (sum %r)" % float(np.nansum(joint)))
+        else:
+            # the Kronecker-product query path (identity factors reproduce the full table; it needs the log-partition value)
+            try:
+                mag = max([float(np.max(np.abs(np.where(np.isfinite(model.potentials[cl].values), model.potentials[cl].values, 0.0)))) for cl in model.cliques] + [0.0])
+                if mag < 300.0:          # krondot exponentiates raw potentials: documented not to survive huge magnitudes
+                    kd = np.asarray(model.krondot([np.eye(n_) for n_ in model.domain.shape]), dtype=float).reshape(joint.shape)
+                    if not np.allclose(kd, joint, rtol=1e-6, atol=tol * total):
+                        bad.append("krondot with identity factors disagrees with datavector (sums %r vs %r)" % (float(kd.sum()), float(joint.sum())))
+            except Exception as ex:
+                bad.append("krondot raised %r" % ex)
         # any two answers agree on the attributes they share
         keys = list(answers)
         for s in keys:
